@@ -446,13 +446,23 @@ impl CompressorOxide {
     ) -> CompressorOxide {
         let window_bits = cmp::min(window_bits, 15);
         let level = cmp::min(level, 10);
+        let requested_strategy = strategy;
         let (level, strategy) = limit_level_by_window_bits(window_bits, level as i32, strategy);
 
-        let flags = create_comp_flags_from_zip_params(
+        let mut flags = create_comp_flags_from_zip_params(
             level,
             change_window_bits_from_format(window_bits, data_format),
             strategy as i32,
         );
+        // A small window replaces the strategy with RLE; keep what the requested strategy
+        // promises about the output (only static blocks / no short matches).
+        if level != 0 && strategy != requested_strategy {
+            match requested_strategy {
+                CompressionStrategy::Fixed => flags |= TDEFL_FORCE_ALL_STATIC_BLOCKS,
+                CompressionStrategy::Filtered => flags |= TDEFL_FILTER_MATCHES,
+                _ => (),
+            }
+        }
 
         CompressorOxide {
             lz: LZOxide::new(),
